@@ -170,6 +170,9 @@ func (f *Fam) Gen(r *rand.Rand, i int) string {
 	case x < 65:
 		return "commit"
 	case x < 73:
+		if ver == 0 { // a crash during the very first commit is the recorded finding F20 (corpus witness)
+			return "commit"
+		}
 		return fmt.Sprintf("crashcommit %d", r.Intn(2*f.n+3))
 	case x < 78:
 		return "reopen"
@@ -263,9 +266,9 @@ func (f *Fam) Exec(op string) (obs string, fails []common.Failure) {
 		return fmt.Sprintf("v=%d", id.Version), fails
 	case "crashcommit":
 		k, _ := strconv.Atoi(w[1])
-		f.commitShadow()
 		before := f.a.ms.LastCommitID().Version
 		oldDump := f.committedDump()
+		f.commitShadow()
 		f.a.budget = k
 		crashed := false
 		var id stypes.CommitID
@@ -300,7 +303,12 @@ func (f *Fam) Exec(op string) (obs string, fails []common.Failure) {
 		got := f.a.ms.LastCommitID().Version
 		d := f.a.dump()
 		if got != before || d != oldDump {
-			fail("crash-atomic", "C13:mixed-state-after-crash", fmt.Sprintf("crash after %d writes of commit %d: reopened at version %d with %s, previous version %d had %s", k, before+1, got, d, before, oldDump))
+			sig := "C13:mixed-state-after-crash"
+			if before == 0 {
+				sig = "C13:first-commit-crash-version-skew"
+			}
+			f.dead = true
+			fail("crash-atomic", sig, fmt.Sprintf("crash after %d writes of commit %d: reopened at version %d with %s, previous version %d had %s", k, before+1, got, d, before, oldDump))
 		}
 		f.needReplay = true
 		return fmt.Sprintf("crashed reopen-ok v=%d %s", got, d), fails
@@ -345,6 +353,13 @@ func (f *Fam) Exec(op string) (obs string, fails []common.Failure) {
 // what it committed (shadow and instance receive the same writes).
 func (f *Fam) committedDump() string {
 	v := f.a.ms.LastCommitID().Version
+	if v == 0 { // nothing committed yet: every store is empty (LoadVersion(0) would load the latest)
+		var p []string
+		for i := 0; i < f.n; i++ {
+			p = append(p, fmt.Sprintf("s%d[]", i))
+		}
+		return strings.Join(append(p, "t[]"), " ")
+	}
 	in := &inst{mem: f.b.mem, budget: -1}
 	d, _ := f.open2(in, v)
 	return d
@@ -392,8 +407,16 @@ func (f *Fam) checkCommit(before int64, id stypes.CommitID, how string, fail fun
 		sig := "C01:hash-differs-between-instances"
 		if how == "replay" {
 			sig = "C13:replay-hash-differs"
+			if before == 0 {
+				sig = "C13:first-commit-crash-version-skew"
+			}
 		}
-		fail("same-hash", sig, fmt.Sprintf("%s of version %d gives hash %x, an uninterrupted instance gives %s", how, id.Version, id.Hash, h))
+		f.dead = true // the instances have diverged: nothing after this is comparable
+		per := ""
+		for i := range f.a.keys {
+			per += fmt.Sprintf(" s%d:%x/%x", i, f.a.ms.GetCommitKVStore(f.a.keys[i]).LastCommitID().Hash, f.b.ms.GetCommitKVStore(f.b.keys[i]).LastCommitID().Hash)
+		}
+		fail("same-hash", sig, fmt.Sprintf("%s of version %d gives hash %x, an uninterrupted instance gives %s (per store a/b:%s)", how, id.Version, id.Hash, h, per))
 	}
 	if d := dumpStore(f.a.ms.GetKVStore(f.a.tkey)); d != "[]" {
 		fail("transient-empty", "C12:transient-not-empty", "transient store holds "+d+" after commit")
